@@ -642,3 +642,20 @@ func factIsNil(f Fact) (x ssa.Value, isNil bool, ok bool) {
 	}
 	return v, isEq == f.Truth, true
 }
+
+// loopVisitsAll reports whether a loop with header hdr (true edge = body,
+// false edge = exit) executes block `must` on every iteration and can only be
+// left through the header (returns inside the body are allowed, breaks are not).
+func loopVisitsAll(hdr, must *ssa.BasicBlock) bool {
+	if len(hdr.Succs) != 2 {
+		return false
+	}
+	body, exit := hdr.Succs[0], hdr.Succs[1]
+	if body != must && reachableAvoiding(body, hdr, func(b *ssa.BasicBlock) bool { return b == must }) {
+		return false
+	}
+	if body == exit || reachableAvoiding(body, exit, func(b *ssa.BasicBlock) bool { return b == hdr }) {
+		return false
+	}
+	return true
+}
